@@ -9,7 +9,7 @@ package coregex
 //@ trusted func stringToBytes
 //@   ensures base(result) == base(s) && off(result) == off(s) && len(result) == len(s) && cap(result) == len(s)
 
-//@ spec func regexOK(r *Regex) bool = r != nil && engineOK(r.engine)
+//@ spec func regexOK(r *Regex) bool = r != nil && leafOK(r.engine) && stratOK(r.engine)
 
 //@ func advancePastEmpty
 //@   props C04 C08 C07
